@@ -309,9 +309,38 @@ pub fn run(ctx: &Ctx) -> Report {
     // wl 2: random + tie rules
     let years_full = ctx.inner(400) as i64;
     run_cases(ctx, &mut rep, 2, ctx.n(30_000, 400_000), |l, rng, i| {
-        let (a, _) = gen_interleaving(rng);
+        let (mut a, _) = gen_interleaving(rng);
         let years = if ctx.quick() && i % 8 != 0 { 40.min(years_full) } else { years_full };
         check_rule(l, &a, rng, years, i % 16 == 0);
+        // the other two routes for random rules as well (when the rule can be written as a TZ description)
+        if i % 4 == 0 {
+            a.std.off = a.std.off.clamp(-89999, 89999);
+            a.dst.off = a.dst.off.clamp(-89999, 89999);
+            if crate::gen::rule::accepted_by_statement(&a) && matches!(a.class(), RuleClass::North | RuleClass::South) {
+                let s = posix_string(&a);
+                let f = v3_file_with_footer(&s, &[(a.std.off, false, a.std.desig.as_deref().unwrap()), (a.dst.off, true, a.dst.desig.as_deref().unwrap())]);
+                match tz::TimeZone::from_tz_data(&f) {
+                    Ok(z) => {
+                        l.class("route_v3_footer_random_rule");
+                        let n = sweep_rule(l, &a, 1990, 12.min(years_full), "v3 footer", z.as_ref());
+                        l.op_n("find_local_time_type", n);
+                    }
+                    Err(e) => l.violation("localtime(rule): rule the statement accepts refused as version-3 footer", s.clone(), "Ok".into(), format!("{:?}", facade::tz_err(&e))),
+                }
+                let plain = a.start_time >= 0 && a.start_time <= 89999 && a.end_time >= 0 && a.end_time <= 89999;
+                if plain {
+                    let settings = tz::TimeZoneSettings::new(&[], |_| Err("no files".into()));
+                    match settings.parse_posix_tz(&s) {
+                        Ok(z) => {
+                            l.class("route_tz_string_random_rule");
+                            let n = sweep_rule(l, &a, 1990, 12.min(years_full), "TZ description", z.as_ref());
+                            l.op_n("find_local_time_type", n);
+                        }
+                        Err(e) => l.violation("localtime(rule): rule the statement accepts refused as TZ description", s.clone(), "Ok".into(), format!("{:?}", facade::top_err(&e))),
+                    }
+                }
+            }
+        }
     });
     rep
 }
